@@ -126,6 +126,7 @@ class C04(PipelineCheck):
                'javac-rejects': 0, 'unchanged-when-not-injected': 0, 'undetermined': 0}
         c = plan['config']
         ninj = 0
+        self._accepted = 0
         if run.status != 'ok' or run.program is None:
             return [], {'probes': probes, 'obligations': obl, 'injected': 0}
         blob = pickle.dumps(run.program, protocol=4)
@@ -165,6 +166,7 @@ class C04(PipelineCheck):
                 sample = ex['sample']
         sim.rand.prefer = None
         extra = {'probes': probes, 'obligations': obl, 'injected': ninj,
+                 'accepted': self._accepted,
                  'faults': dict(self.fault_counts(sim, plan),
                                 P2_directed_choice=sim.rand.prefer_fired),
                  'sample': sample or {'config': c, 'note': 'no injection in this run'}}
@@ -384,8 +386,29 @@ class C04(PipelineCheck):
                     'the one before (the overwritten %s is %s)' % (
                         (res['error_injected'] or '')[:100], lang, kind,
                         'hidden by can_infer_type_args / omitted type' if hidden else 'printed?'))
-            elif lang == 'java' and shutil.which('javac') and not v and \
-                    obl['javac-rejects'] < 2:
+            else:
+                # ---- (d') the reference checker (inference mode) must reject the program --
+                try:
+                    from sim import refcheck
+                    ck0 = refcheck.Checker(res['program'], infer=True)
+                    ck0.run()
+                    nerr = sum(1 for x in ck0.viol if x['prop'] == 'C01')
+                except RecursionError:
+                    nerr = None
+                if nerr is not None:
+                    obl['refcheck-rejects'] = obl.get('refcheck-rejects', 0) + 1
+                    if nerr == 0:
+                        # the reference checker is liberal by construction (numeric constants,
+                        # undetermined receivers ...): a single acceptance is a diagnostic;
+                        # the RATE of acceptances is judged over the batch (finish())
+                        oo = _unvar(self._old_type(obs, diff, kind) or ('?',))
+                        nn = tsnap(new_t) if new_t is not None else ('?',)
+                        if not (numeric(oo) and numeric(nn)):
+                            probes['refcheck_accepts_injection'] = probes.get(
+                                'refcheck_accepts_injection', 0) + 1
+                            self._accepted = getattr(self, '_accepted', 0) + 1
+            if lang == 'java' and shutil.which('javac') and not v and \
+                    lang not in same_text and obl['javac-rejects'] < 2:
                 # ---- (d) a correct type checker must reject: real javac --------------------
                 obl['javac-rejects'] += 1
                 probes['javac_judged'] = 1
@@ -429,11 +452,24 @@ class C04(PipelineCheck):
             shutil.rmtree(root, ignore_errors=True)
 
     def collect(self, agg, res):
-        d = agg.setdefault('c04', {'inj': 0})
+        d = agg.setdefault('c04', {'inj': 0, 'acc': 0})
         d['inj'] += res.get('injected', 0)
+        d['acc'] += res.get('accepted', 0)
+
+    def finish(self, agg):
+        d = agg.get('c04') or {'inj': 0, 'acc': 0}
+        if d['inj'] >= 100 and d['acc'] > 0.12 * d['inj']:
+            return [{'rule': 'must-reject-rate', 'sig': 'must-reject-rate|reference-checker',
+                     'detail': 'the reference type checker (inference mode) finds no error in %d '
+                               'of %d programs in which an injection is reported (non-numeric '
+                               'replacements; the unchanged tree stays below 2 %%)' % (
+                                   d['acc'], d['inj'])}]
+        return []
 
     def extra_evidence(self, agg):
-        return {'injections_examined': (agg.get('c04') or {}).get('inj', 0)}
+        d = agg.get('c04') or {}
+        return {'injections_examined': d.get('inj', 0),
+                'injections_accepted_by_reference_checker_non_numeric': d.get('acc', 0)}
 
     def feature(self, run, sim, plan):
         if run.status != 'ok':
